@@ -136,6 +136,110 @@ class Facts:
         return self._closures.get(path, [])
 
 
+def family(facts, fn, depth=2, same_crate=True):
+    """fn, its closures, and the workspace functions it calls (transitively up to `depth`, same crate by default),
+    each once: code that was moved into a private helper is still 'in' the function for table-reading rules."""
+    out, seen = [], set()
+
+    def add(b, d):
+        if b is None or b["path"] in seen or "thir" not in b:
+            return
+        seen.add(b["path"])
+        out.append(b)
+        for cb in facts.closures_of(b["path"]):
+            add(cb, d)
+        if d <= 0:
+            return
+        for c in exprs(b["thir"], "Call"):
+            for key in ("rfn", "fn"):
+                cal = c.get(key)
+                cb = facts.bodies.get(cal) if cal else None
+                if cb is not None and (not same_crate or cb.get("crate") == fn.get("crate")):
+                    add(cb, d - 1)
+                    break
+        for c in exprs(b["thir"], "FnRef"):
+            cb = facts.bodies.get(c.get("fn"))
+            if cb is not None and (not same_crate or cb.get("crate") == fn.get("crate")):
+                add(cb, d - 1)
+    add(fn, depth)
+    return out
+
+
+def let_table(body_thir):
+    """id -> init expression for plain `let x = e;` bindings (not `mut`-reassigned ones: a variable that is assigned
+    again later is left out, its value is not its initialiser)."""
+    assigned = set()
+    for a in walk(body_thir):
+        if isinstance(a, dict) and a.get("k") in ("Assign", "AssignOp"):
+            v = leftmost_var(a["l"])
+            if v is not None and strip(a["l"]).get("k") == "Var":
+                assigned.add(v["id"])
+    tab = {}
+    for s in walk(body_thir):
+        if isinstance(s, dict) and s.get("k") == "LetStmt" and "init" in s and s.get("pat", {}).get("k") == "Bind" and "else" not in s:
+            if s["pat"]["id"] not in assigned:
+                tab[s["pat"]["id"]] = s["init"]
+    return tab
+
+
+def inline_lets(body_thir, e, depth=4, _tab=None):
+    """e with every temporary (`let x = init;`, never reassigned) replaced by its initialiser, recursively: rules then
+    see through `let tmp = a.b[c..]; f(tmp)`."""
+    import copy
+    tab = _tab if _tab is not None else let_table(body_thir)
+
+    def sub(n, d):
+        if isinstance(n, list):
+            return [sub(x, d) for x in n]
+        if not isinstance(n, dict):
+            return n
+        if n.get("k") == "Var" and n.get("id") in tab and d > 0:
+            return sub(tab[n["id"]], d - 1)
+        return {k: (sub(v, d) if isinstance(v, (dict, list)) else v) for k, v in n.items()}
+    return sub(e, depth)
+
+
+def calls_through_wrappers(facts, body, is_target, depth=2):
+    """Calls of a target function made by `body` directly or through private same-crate helper functions: yields
+    (args, node) with the arguments expressed in `body`'s own terms (helper parameters replaced by the caller's
+    argument expressions). Extracting `T::new(..)` into `fn make(..) -> T { T::new(..) }` is invisible to rules using this."""
+    out = []
+
+    def subst(n, mapping):
+        if isinstance(n, list):
+            return [subst(x, mapping) for x in n]
+        if not isinstance(n, dict):
+            return n
+        if n.get("k") == "Var" and n.get("id") in mapping:
+            return mapping[n["id"]]
+        return {k: (subst(v, mapping) if isinstance(v, (dict, list)) else v) for k, v in n.items()}
+    for c in exprs(body["thir"], "Call"):
+        if is_target(c):
+            out.append((c.get("args", []), c))
+            continue
+        cal = c.get("rfn") or c.get("fn")
+        cb = facts.bodies.get(cal) if cal else None
+        if cb is None or depth <= 0 or cb.get("crate") != body.get("crate") or cb["path"] == body["path"] or "thir" not in cb:
+            continue
+        params = cb.get("params", [])
+        if len(params) != len(c.get("args", [])):
+            continue
+        mapping = {}
+        for prm, a in zip(params, c["args"]):
+            pat = prm.get("pat") or {}
+            if pat.get("k") == "Bind":
+                mapping[pat["id"]] = a
+        for args, node in calls_through_wrappers(facts, cb, is_target, depth - 1):
+            out.append((subst(args, mapping), node))
+    return out
+
+
+def exprs_deep(facts, fn, kind=None, depth=2):
+    for b in family(facts, fn, depth):
+        for n in exprs(b["thir"], kind):
+            yield n
+
+
 def short(p):
     """Last path segment of a (possibly generic) type or def path, generic arguments removed."""
     if p is None:
